@@ -180,7 +180,7 @@ def reasm(prop, tier, seed, replay):
 
 
 def simple_records(prop, tier, seed, replay, *, model, driver_cmd, replay_cmd, trace_spec,
-                   case_of, rule, nontrivial, sample_of, builds=("debug",)):
+                   case_of, rule, nontrivial, sample_of, builds=("debug",), no_evidence=False):
     """Generic pipeline: design-level model + records of real executions validated by TLC, one
     record per line, each judged independently."""
     t0 = time.time()
@@ -202,24 +202,33 @@ def simple_records(prop, tier, seed, replay, *, model, driver_cmd, replay_cmd, t
             rep = json.load(open(replay))
             cf = os.path.join(wd, "cases.json")
             json.dump({"cases": rep["cases"]}, open(cf, "w"))
-            cmd = replay_cmd(bindir, cf, out)
+            cmds = [replay_cmd(bindir, cf, out, rep)]
         else:
-            cmd = driver_cmd(bindir, out)
-        rc, o = sh(cmd, timeout=6000)
-        stats_all.append({"build": b, **json.loads(o.strip().splitlines()[-1])})
-        tracefile = os.path.join(out, "trace.ndjson")
-        bad, consumed, n, _ = tlc_trace(trace_spec[0], trace_spec[1], tracefile, wd, timeout=6000,
-                                        heap="12g")
-        total += n
-        recs = read_records(tracefile)
-        for r in recs:
-            if nontrivial(r):
-                distinct.add(digest(case_of(r)))
-        if not samples:
-            samples = [sample_of(r) for r in recs if nontrivial(r)][:3]
-        for (p, line, _, _) in bad:
-            if p == prop:
-                viol.append((b, recs[line - 1]))
+            cmds = driver_cmd(bindir, out)
+            if isinstance(cmds, str):
+                cmds = [cmds]
+        for ci, cmd in enumerate(cmds):
+            outd = out + "-%d" % ci
+            rc, o = sh(cmd.replace(out, outd), timeout=6000)
+            stats_all.append({"build": b, "cmd": cmd.split()[1:3], **json.loads(o.strip().splitlines()[-1])})
+            tracefile = os.path.join(outd, "trace.ndjson")
+            bad, consumed, n, _ = tlc_trace(trace_spec[0], trace_spec[1], tracefile, wd, timeout=6000,
+                                            heap="12g")
+            total += n
+            recs = read_records(tracefile)
+            ctx = None
+            for li, r in enumerate(recs):
+                if r.get("op") == "fmsg":
+                    ctx = r
+                r["_ctx"] = ctx if r.get("op") == "flt" else None
+                r["_cmd"] = cmd.split()[1]
+                if nontrivial(r):
+                    distinct.add(digest(case_of(r)))
+            if len(samples) < 3:
+                samples += [sample_of(r) for r in recs if nontrivial(r)][:2]
+            for (p, line, _, _) in bad:
+                if p == prop:
+                    viol.append((b, recs[line - 1]))
     viol.sort(key=lambda v: len(json.dumps(case_of(v[1]))))
     for b, r in viol[:3]:
         if replay:
@@ -231,14 +240,72 @@ def simple_records(prop, tier, seed, replay, *, model, driver_cmd, replay_cmd, t
                        "record": r}, open(path, "w"), indent=1)
         print("VIOLATION property=%s replay=%s" % (prop, path))
         log("  [%s build] %s" % (b, json.dumps(sample_of(r))[:300]))
+    cov = {"states": states, "transitions": trans, "traces_validated_against_impl": total,
+           "samples": samples or [{"note": "none"}], "evaluations": total,
+           "distinct_nontrivial": len(distinct), "rule": rule, "driver": stats_all,
+           "model": minfo, "exhaustive": False}
+    if no_evidence:
+        return (1 if viol else 0), cov
     if not replay:
-        write_evidence(prop, tier, seed, "model_checking", {
-            "states": states, "transitions": trans, "traces_validated_against_impl": total,
-            "samples": samples or [{"note": "none"}], "evaluations": total,
-            "distinct_nontrivial": len(distinct), "rule": rule, "driver": stats_all,
-            "model": minfo, "exhaustive": False,
-        }, time.time() - t0, len(viol), ASSUME)
+        write_evidence(prop, tier, seed, "model_checking", cov, time.time() - t0, len(viol), ASSUME)
     return 1 if viol else 0
+
+
+def strip(r):
+    return {k: v for k, v in r.items() if not k.startswith("_") and k not in ("bytes", "alt")}
+
+
+def wire_case(r):
+    """what identifies a record for replay"""
+    if r.get("op") == "rt":
+        return {"op": "rt", "method": r["method"], "cls": r["cls"], "txid": r["txid"],
+                "attrs": r["attrs"], "key": r["key"]}
+    if r.get("op") == "flt":
+        c = r.get("_ctx") or {}
+        return {"op": "flt", "bytes": c.get("bytes"), "attr": c.get("attr"), "pos": r["pos"]}
+    return strip(r)
+
+
+def wire(prop, tier, seed, replay, no_evidence=False):
+    """C01, C02, C04, C10 (codec half): reference codec WireLayout / Wire + recorded executions."""
+    q = tier == "quick"
+    def cmds(b, out):
+        c = []
+        if prop in ("C01", "C02"):
+            c.append("%s/drive-codec roundtrip --messages %d --seed %d --out %s" % (b, 1500 if q else 60000, seed, out))
+        if prop == "C02":
+            c.append("%s/drive-codec msgtype --from-step %d --out %s" % (b, 5 if q else 1, out))
+            c.append("%s/drive-codec ignorable --messages %d --variants %d --seed %d --out %s" % (
+                b, 400 if q else 8000, 4 if q else 8, seed, out))
+        if prop == "C04":
+            c.append("%s/drive-codec roundtrip --messages %d --seed %d --out %s" % (b, 600 if q else 20000, seed, out))
+            c.append("%s/drive-codec faults --what integrity --messages %d --seed %d --out %s" % (
+                b, 60 if q else 600, seed, out))
+        if prop == "C10":
+            c.append("%s/drive-codec roundtrip --messages %d --seed %d --out %s" % (b, 600 if q else 20000, seed, out))
+            c.append("%s/drive-codec faults --what fingerprint --messages %d --seed %d --out %s" % (
+                b, 60 if q else 600, seed, out))
+        return c
+    def rcmd(b, cf, out, rep):
+        sub = rep.get("driver", "roundtrip")
+        return "%s/drive-codec %s --cases %s --out %s" % (b, sub, cf, out)
+    return simple_records(
+        prop, tier, seed, replay,
+        model=("MC_Wire.tla", "MC_Wire.cfg"),
+        driver_cmd=cmds, replay_cmd=rcmd,
+        trace_spec=("TraceWire.tla", "TraceWire.cfg"),
+        case_of=wire_case,
+        rule="records of real encoder/decoder executions judged by TLC against the RFC-derived reference codec "
+             "(WireLayout/Wire): roundtrip = one generated message (every kind x every edge value alone, then random "
+             "lists of 0-6 attributes of the 38 kinds, every legal integrity/fingerprint tail, 3 key types); "
+             "msgtype = all 16,384 (method, class) pairs + From<u16>; ignorable = reference bytes with ignorable "
+             "bits/padding altered; faults = every single-bit fault (and byte substitutions for FINGERPRINT) at every "
+             "byte of a message, one record per byte; non-trivial = every record except fault-walk headers; "
+             "distinct by the record's inputs",
+        nontrivial=lambda r: r.get("op") != "fmsg",
+        sample_of=lambda r: {k: (v if not isinstance(v, list) or len(v) < 40 else v[:40] + ["..."])
+                             for k, v in strip(r).items()},
+        no_evidence=no_evidence)
 
 
 def encoder(prop, tier, seed, replay):
@@ -248,7 +315,7 @@ def encoder(prop, tier, seed, replay):
         model=("MC_Encoder.tla", "MC_Encoder.cfg"),
         driver_cmd=lambda b, out: "%s/drive-codec buffers --small %d --large %d --seed %d --out %s" % (
             b, small, large, seed, out),
-        replay_cmd=lambda b, cf, out: "%s/drive-codec buffers --cases %s --out %s" % (b, cf, out),
+        replay_cmd=lambda b, cf, out, rep: "%s/drive-codec buffers --cases %s --out %s" % (b, cf, out),
         trace_spec=("TraceEncoder.tla", "TraceEncoder.cfg"),
         case_of=lambda r: {"lens": r["lens"], "buf": r["buf"], "prefill": r["prefill"]},
         rule="one record = one MessageEncoder::encode call for a message given by its attribute value "
@@ -263,6 +330,19 @@ def encoder(prop, tier, seed, replay):
 
 
 def run(prop, tier, seed, replay=None):
+    if prop in ("C01", "C02", "C04"):
+        return wire(prop, tier, seed, replay)
+    if prop == "C10":
+        # codec half here, client half (enforcement by the client) through the client pipeline
+        import client
+        if replay:
+            rep = json.load(open(replay))
+            if rep.get("kind") == "client-schedule":
+                return client.run(prop, tier, seed, replay)
+            return wire(prop, tier, seed, replay)
+        rc1, cov = wire(prop, tier, seed, None, no_evidence=True)
+        rc2 = client.run(prop, tier, seed, None, extra_cov={"codec_half": cov})
+        return 1 if (rc1 or rc2) else 0
     if prop == "C14":
         return encoder(prop, tier, seed, replay)
     if prop == "C16":
